@@ -158,16 +158,7 @@ def run(ctx):
         for case in got[1]:
             if case['opcode']:
                 writer.setdefault(case['opcode'], []).append((meth, case))
-    # every accepting path of every serializer override writes its instruction (a call that is tracked but not written
-    # cannot be replayed: the replayed machine state falls behind the serializer's)
-    for meth in PM.INTERP_METHODS:
-        got = w.serializer_cases(meth)
-        if got is None:
-            continue
-        silent = [c for c in got[1] if c['opcode'] is None]
-        ctx.ob('writer-emits', meth, not silent,
-               f'SerializingInterpreter.{meth} has a path (under {[show(c) for c, _b in silent[0]["conds"]] if silent else ""}) that updates the '
-               f'tracked state but writes no instruction', py.where(w.top.module, got[0].node))
+    writer_emits(ctx, py, w)
     ev = PyEval()
     env0 = {'interpreter': INTERP, 'data': ('param', 'data')}
     for op in sorted(writer):
@@ -378,6 +369,20 @@ def _is_raw_int_tuple(a) -> bool:
     """value produced by read_list(): a tuple of ints (directly or through a generator unpacking)"""
     s = repr(a)
     return 'read_list' in s
+
+
+def writer_emits(ctx, py, w):
+    """every accepting path of every serializer override writes its instruction (a call that is tracked but not written cannot be
+    replayed: the replayed machine state falls behind the serializer's; and the pretty printer, which prints one step per call,
+    lists a step the binary file lacks)"""
+    for meth in PM.INTERP_METHODS:
+        got = w.serializer_cases(meth)
+        if got is None:
+            continue
+        silent = [c for c in got[1] if c['opcode'] is None]
+        ctx.ob('writer-emits', meth, not silent,
+               f'SerializingInterpreter.{meth} has a path (under {[show(c) for c, _b in silent[0]["conds"]] if silent else ""}) that updates the '
+               f'tracked state but writes no instruction', py.where(w.top.module, got[0].node))
 
 
 # parameters that are generator-side labels, not machine state: one line of reason each
